@@ -296,6 +296,15 @@ var edgeStrings = [][]byte{
 // Str draws a string: empty, ASCII, multi-byte, invalid UTF-8, or long (> 127
 // bytes so that its length needs a two-byte varint).
 func Str(t *rapid.T, label string) []byte {
+	if Uniform(t, label+"_huge", 60) == 0 {
+		// lengths around common buffer sizes
+		n := []int{1023, 1024, 1025, 4095, 4096, 4097, 65535, 65536, 65537, 2047, 2049, 8192}[Uniform(t, label+"_hugeLen", 12)]
+		b := make([]byte, n)
+		for i := range b {
+			b[i] = byte('A' + (i*7+i/64)%26)
+		}
+		return b
+	}
 	switch rapid.IntRange(0, 9).Draw(t, label+"_cls") {
 	case 0, 1, 2:
 		return append([]byte{}, rapid.SampledFrom(edgeStrings).Draw(t, label)...)
